@@ -74,7 +74,7 @@ theorem collToList_shape {uns : Bool} {ie oe conv} {v r : Value} {es : List Valu
     (hes : elemsOf E v = .ok es) (hel : ∀ e ∈ es, e.ty = ie ∧ wtP ie e.v = true)
     (h : applyStep E rec (.collToList oe conv) v = .ok r) : isSeqOf es.length r.v := by
   have hnd : oe.isDyn = false := not_isDyn_of_noDyn hdo
-  simp only [applyStep, hnd, hlk, Bool.not_true, Bool.false_eq_true, if_false, hes, Res.bind] at h
+  simp only [applyStep, hnd, hdo, hlk, Bool.not_true, Bool.false_eq_true, if_false, hes, Res.bind] at h
   obtain ⟨es', hes', h⟩ := Res.bind_eq_ok h
   have hm := converted_members hU hrec (post := stripNull) (fun _ hv => stripNull_ty' hv)
     hpf hwi hoi hwo hdo hel hes'
@@ -98,7 +98,7 @@ theorem collToMap_shape {uns : Bool} {ie oe conv} {ks : List String} {ps : List 
     (hwo : wf oe = true) (hdo : hasDyn oe = false) (hps : wtAll ie ps = true)
     (h : applyStep E rec (.collToMap oe conv) ⟨.map ie, .smap ks ps⟩ = .ok r) : isMapOf ps.length r.v := by
   have hnd : oe.isDyn = false := not_isDyn_of_noDyn hdo
-  simp only [applyStep, hnd, elemsOf, keysOf] at h
+  simp only [applyStep, hnd, hdo, elemsOf, keysOf] at h
   obtain ⟨es, hes, h⟩ := Res.bind_eq_ok h
   simp at hes; subst hes
   obtain ⟨es', hes', h⟩ := Res.bind_eq_ok h
